@@ -246,7 +246,7 @@ def cases(tier, rng):
         yield 'crc.backtable %d %d' % (pv, pw), 'crc.backtable'
         yield from crc_lines(rng, pv, pw, 10 if q else 20)
         yield from back_lines(rng, pv, pw, 3 if q else 8)
-    for pw in range(0, 8):
+    for pw in range(1, 8):    # width 0 is refused by the code since the C08 fix (c[0] of an empty Bits is an IndexError); not modelled
         pv = rpoly(rng, pw)
         yield 'crc.table %d %d' % (pv, pw), 'crc.table-narrow'
         yield 'crc.backtable %d %d' % (pv, pw), 'crc.backtable-narrow'
